@@ -58,6 +58,8 @@ impl BlockEncoder {
             closabled_object,
         };
         block.block_partitioning();
+        // An empty object has no source block, only the close-object packet is sent
+        block.read_end = block.nb_blocks == 0;
         Ok(block)
     }
 
